@@ -114,14 +114,14 @@ theorem calc_score_call_raises (b : Fin 35) (x xx : Bool) (v : Vul) (od : Option
 /-! ## the translated program, run as the harness runs it (`fn` = `PB.runFn`, fuel `topFuel`) -/
 
 theorem fn_calc_score (args : List Val) :
-    fn n_calc_score args = ((mkRec PB (99880 + 120)).call f_calc_score args).map (·.1) := rfl
+    fn n_calc_score args = ((mkRec PB (880 + 120)).call f_calc_score args).map (·.1) := rfl
 
 /-- THE TRANSLATED public entry `calc_score(contract, taken_tricks)` is the duplicate scoring law from declarer's side,
 for EVERY contract with a declarer and 0..13 tricks -/
 theorem calc_score_translated_is_law (b : Fin 35) (x xx : Bool) (v : Vul) (d : Seat) (t : Nat) (ht : t ≤ 13) :
     (fn n_calc_score [encContract ⟨some b, x, xx, v, some d⟩, .int t]).int?
       = some (dupScore (bidLevel b) (bidDenom b) (status x xx) (sideVulnerable v d) t) := by
-  rw [fn_calc_score, calc_score_call_ok b x xx v (some d) t ht 99880 _ _ (is_vul_call_some _ (by omega) _ x xx v d)]
+  rw [fn_calc_score, calc_score_call_ok b x xx v (some d) t ht 880 _ _ (is_vul_call_some _ (by omega) _ x xx v d)]
   rfl
 
 /-- a passed-out contract scores 0 whatever else it carries -/
@@ -138,16 +138,16 @@ theorem calc_score_translated_no_declarer (b : Fin 35) (x xx : Bool) (v : Vul) (
     | .both => (fn n_calc_score [encContract ⟨some b, x, xx, v, none⟩, .int t]).int?
         = some (dupScore (bidLevel b) (bidDenom b) (status x xx) true t)
     | _ => (fn n_calc_score [encContract ⟨some b, x, xx, v, none⟩, .int t]).exc? = some K.ValueError := by
-  have hv := fun v => is_vul_call_none (99880 + 116) (by omega) (some b) x xx v
+  have hv := fun v => is_vul_call_none (880 + 116) (by omega) (some b) x xx v
   cases v
   · show R.int? _ = _
-    rw [fn_calc_score, calc_score_call_ok b x xx .none none t ht 99880 _ _ (hv .none)]; rfl
+    rw [fn_calc_score, calc_score_call_ok b x xx .none none t ht 880 _ _ (hv .none)]; rfl
   · show R.exc? _ = _
-    rw [fn_calc_score, calc_score_call_raises b x xx .ns none _ 99880 _ (hv .ns)]; rfl
+    rw [fn_calc_score, calc_score_call_raises b x xx .ns none _ 880 _ (hv .ns)]; rfl
   · show R.exc? _ = _
-    rw [fn_calc_score, calc_score_call_raises b x xx .ew none _ 99880 _ (hv .ew)]; rfl
+    rw [fn_calc_score, calc_score_call_raises b x xx .ew none _ 880 _ (hv .ew)]; rfl
   · show R.int? _ = _
-    rw [fn_calc_score, calc_score_call_ok b x xx .both none t ht 99880 _ _ (hv .both)]; rfl
+    rw [fn_calc_score, calc_score_call_ok b x xx .both none t ht 880 _ _ (hv .both)]; rfl
 
 /-- only declarer's side's vulnerability matters to the translated `calc_score` -/
 theorem calc_score_translated_declarer_side_only (b : Fin 35) (x xx : Bool) (v v' : Vul) (d : Seat) (t : Nat) (ht : t ≤ 13)
